@@ -41,32 +41,35 @@ Qed.
 Lemma is_ws_sp : is_ws [SP]. Proof. reflexivity. Qed.
 Lemma is_ws_nil : is_ws []. Proof. reflexivity. Qed.
 
-Lemma canon_ok e : printable e -> forall lvl, (lvl <= 2)%nat -> ok lvl (canon lvl e).
+Lemma canon_okx e : printable e -> forall bk rp lvl, (lvl <= 2)%nat -> okx bk rp lvl (canon lvl e).
 Proof.
-  induction e as [a|x IH|a IHa b IHb|a IHa b IHb]; intros Hp lvl Hl; cbn [canon].
-  - cbn [ok]. unfold atom_ok, dq_style. cbn. split; [exact I|].
+  induction e as [a|x IH|a IHa b IHb|a IHa b IHb]; intros Hp bk rp lvl Hl; cbn [canon].
+  - cbn [okx]. unfold atom_okx, dq_style. cbn. split; [exact I|].
     destruct (a_key a) as [k|] eqn:E; [|exact I]. split; [|exact I].
     intros ->. apply (Hp a); [now left|exact E].
-  - cbn [ok]. split; [exact is_ws_sp|]. split; [apply IH; [exact Hp|lia]|left; discriminate].
+  - cbn [okx]. split; [exact is_ws_sp|]. split; [apply IH; [exact Hp|lia]|left; discriminate].
   - assert (Hpa : printable a) by (intros x Hx; apply Hp; cbn [atoms]; apply in_or_app; auto).
     assert (Hpb : printable b) by (intros x Hx; apply Hp; cbn [atoms]; apply in_or_app; auto).
-    assert (Hbin : forall l, (l <= 1)%nat -> ok l (CBin KAnd (canon 1 a) [SP] [SP] (canon 2 b))).
-    { intros l Hle. cbn [ok lev]. repeat split; try exact is_ws_sp; try discriminate; try lia.
+    assert (Hbin : forall rp' l, (l <= 1)%nat -> okx bk rp' l (CBin KAnd (canon 1 a) [SP] [SP] (canon 2 b))).
+    { intros rp' l Hle. cbn [okx lev]. repeat split; try exact is_ws_sp; try discriminate; try lia.
       - apply IHa; [exact Hpa|lia]. - apply IHb; [exact Hpb|lia].
       - left; discriminate. - left; discriminate. }
     destruct (1 <? lvl)%nat eqn:E; cbn [wrap].
-    + cbn [ok]. split; [exact is_ws_nil|]. split; [exact is_ws_nil|]. apply Hbin. lia.
+    + cbn [okx]. split; [exact is_ws_nil|]. split; [exact is_ws_nil|]. apply Hbin. lia.
     + apply Nat.ltb_ge in E. now apply Hbin.
   - assert (Hpa : printable a) by (intros x Hx; apply Hp; cbn [atoms]; apply in_or_app; auto).
     assert (Hpb : printable b) by (intros x Hx; apply Hp; cbn [atoms]; apply in_or_app; auto).
-    assert (Hbin : ok 0 (CBin KOr (canon 0 a) [SP] [SP] (canon 1 b))).
-    { cbn [ok lev]. repeat split; try exact is_ws_sp; try discriminate; try lia.
+    assert (Hbin : forall rp', okx bk rp' 0 (CBin KOr (canon 0 a) [SP] [SP] (canon 1 b))).
+    { intros rp'. cbn [okx lev]. repeat split; try exact is_ws_sp; try discriminate; try lia.
       - apply IHa; [exact Hpa|lia]. - apply IHb; [exact Hpb|lia].
       - left; discriminate. - left; discriminate. }
     destruct (0 <? lvl)%nat eqn:E; cbn [wrap].
-    + cbn [ok]. split; [exact is_ws_nil|]. split; [exact is_ws_nil|]. exact Hbin.
-    + apply Nat.ltb_ge in E. assert (lvl = 0%nat) as -> by lia. exact Hbin.
+    + cbn [okx]. split; [exact is_ws_nil|]. split; [exact is_ws_nil|]. apply Hbin.
+    + apply Nat.ltb_ge in E. assert (lvl = 0%nat) as -> by lia. apply Hbin.
 Qed.
+
+Lemma canon_ok e : printable e -> forall lvl, (lvl <= 2)%nat -> ok lvl (canon lvl e).
+Proof. intros Hp lvl Hl. now apply canon_okx. Qed.
 
 Section Corollaries.
   Variable V : variants.
@@ -93,8 +96,8 @@ Section Corollaries.
     let H := fresh in
     pose proof (parse_print V compile t [] []) as H; cbn [app] in H; rewrite app_nil_r in H;
     cbn [print erase mk_of] in H; rewrite <- ?app_assoc in H; apply H;
-    [ cbn [ok lev]; repeat match goal with |- _ /\ _ => split end;
-      first [assumption | exact is_ws_sp | exact is_ws_nil | discriminate | lia | left; discriminate]
+    [ unfold ok; cbn [okx lev andb]; repeat match goal with |- _ /\ _ => split end;
+      first [assumption | exact Ha | exact Hb | exact Hc | exact is_ws_sp | exact is_ws_nil | discriminate | lia | left; discriminate]
     | intros x Hx; cbn [catoms app In] in Hx; intuition (subst; assumption)
     | exact is_ws_nil | exact is_ws_nil ].
 
@@ -122,8 +125,8 @@ Section Corollaries.
     assert (Hs : LP :: pa ++ lit " or " ++ pb ++ lit ") and " ++ pc = [] ++ print t ++ []).
     { unfold t. cbn [print]. rewrite app_nil_r. cbn [app]. rewrite <- !app_assoc. reflexivity. }
     rewrite Hs. apply (parse_print V compile t [] []).
-    - unfold t. cbn [ok lev]. repeat match goal with |- _ /\ _ => split end;
-        first [assumption | exact is_ws_sp | exact is_ws_nil | discriminate | lia | left; discriminate | right; reflexivity].
+    - unfold t, ok. cbn [okx lev andb]. repeat match goal with |- _ /\ _ => split end;
+        first [assumption | exact Ha | exact Hb | exact Hc | exact is_ws_sp | exact is_ws_nil | discriminate | lia | left; discriminate | right; reflexivity].
     - intros x Hx. unfold t in Hx. cbn [catoms app In] in Hx. intuition (subst; assumption).
     - exact is_ws_nil.
     - exact is_ws_nil.
